@@ -3815,3 +3815,10 @@ B("F36-C12-batch-into-deleted-keyspace-accepted", "C12", "C12:R-C12.14:batch::Wr
             return Err(crate::Error::KeyspaceDeleted);
         }
 """, "")
+
+# ---- repair 37 reverted
+B("F37-C03-wrapped-io-error-taken-for-torn-tail", "C03", "C03:R-C03.16:journal::entry::Entry::decode_from", "src/journal/entry.rs",
+  """                let compression = CompressionType::decode_from(reader).map_err(|e| match e {
+                    lsm_tree::Error::Io(e) => crate::Error::Io(e),
+                    e => e.into(),
+                })?;""", """                let compression = CompressionType::decode_from(reader)?;""")
